@@ -26,7 +26,10 @@ def parseTable : Sexp → Table
       chunks := chunks.filterMap (fun c => match c with
         | .list (.atom "c" :: rows) => some (rows.map parseRow)
         | _ => none),
-      ordered := !(chunks.any (fun c => c == .list [.atom "unordered"])) }
+      ordered := !(chunks.any (fun c => c == .list [.atom "unordered"])),
+      sortKey := chunks.findSome? (fun c => match c with
+        | .list [.atom "sortedby", .atom k] => k.toNat?
+        | _ => none) }
   | _ => { types := [], chunks := [] }
 
 def renderRows (rows : List Row) : String := "".intercalate (rows.map rowCanon)
